@@ -5,5 +5,5 @@ CONSTANTS
   Msgs = {"p"}
   MaxN = 2
   MaxW = 2
-  MaxX = 7
+  MaxX = 6
 INVARIANTS TypeOK RecvLeSent Conservation CompleteAtDone SequentialOwners OnlyActiveReceive UnknownStayInactive DoneExactly EndsWithDone
